@@ -148,6 +148,53 @@ def registry_facts(repo: Path):
     return out
 
 
+def tree_facts(repo: Path):
+    """C05 (round 4, agent tree): source facts about the supervision tree.  Returns Lean lines."""
+    sup = strip_comments(read(repo, "ractor/src/actor/supervision.rs"))
+    cell = strip_comments(read(repo, "ractor/src/actor/actor_cell.rs"))
+    actor = strip_comments(read(repo, "ractor/src/actor.rs"))
+    inner = strip_comments(read(repo, "ractor/src/thread_local/inner.rs"))
+    out = []
+    # terminate: per popped actor first the kill test, then take_children, then the push
+    tb = fn_body(cell, "terminate") or ""
+    order = [m.group(0) for m in re.finditer(r"get_status\(\)|\.kill\(\)|take_children|pending\.extend|pending\.pop", tb)]
+    out.append("/-- `ActorCell::terminate`: the calls of the worklist loop in source order -/")
+    out.append(f"def terminateLoopOrder : List String := {lean_strs(order)}")
+    # the two link forms and their child limits
+    lims = []
+    for f in ("link", "link_starting"):
+        b = fn_body(sup, f) or ""
+        m = re.search(r"link_below\(\s*child\s*,\s*supervisor\s*,\s*super::actor_cell::ActorStatus::(\w+)", b)
+        lims.append((f, m.group(1) if m else "?"))
+    out.append("/-- child limit each link form passes to `link_below` -/")
+    out.append("def linkChildLimits : List (String × String) := [" + ", ".join(f"({lean_str(a)}, {lean_str(b)})" for a, b in lims) + "]")
+    lb = fn_body(sup, "link_below") or ""
+    m = re.search(r"if\s+child\.get_status\(\)\s*>=\s*child_limit\s*\|\|\s*supervisor\.get_status\(\)\s*>=\s*super::actor_cell::ActorStatus::(\w+)\s*\{\s*return\s+false", lb)
+    out.append("/-- `link_below`: `child >= child_limit || supervisor >= <this>` refuses -/")
+    out.append(f"def linkSupervisorLimit : String := {lean_str(m.group(1) if m else '?')}")
+    starts = []
+    for rel, src in (("actor.rs", actor), ("inner.rs", inner)):
+        b = fn_body(src, "start", src.find("async fn start")) or ""
+        starts.append((rel, "try_link_starting" if "try_link_starting(" in b else ("try_link" if "try_link(" in b else "?")))
+    out.append("/-- which link `start` uses (Send runtime, thread-local runtime) -/")
+    out.append("def startLinkCalls : List (String × String) := [" + ", ".join(f"({lean_str(a)}, {lean_str(b)})" for a, b in starts) + "]")
+    # who takes TREE_MUTATION_LOCK
+    locked = []
+    for f in ("link_below", "unlink", "take_children", "get_children", "for_each_child", "try_get_supervisor"):
+        locked.append((f, "TREE_MUTATION_LOCK" in (fn_body(sup, f) or "")))
+    out.append("/-- functions of `supervision.rs` that take `TREE_MUTATION_LOCK` -/")
+    out.append("def treeLockUsers : List (String × Bool) := [" + ", ".join(f"({lean_str(a)}, {str(b).lower()})" for a, b in locked) + "]")
+    # hand-over: both field guards of the first half are dropped before the old supervisor's set is locked
+    i1, i2 = lb.find("drop(current_supervisor)"), lb.find("drop(new_children_guard)")
+    i3 = lb.find("previous_supervisor.inner.tree.children.lock()")
+    out.append("/-- `link_below`: `drop(current_supervisor); drop(new_children_guard)` precede the lock of the previous supervisor's set -/")
+    out.append(f"def linkReleasesBeforeOldParent : Bool := {str(0 <= i1 < i2 < i3).lower()}")
+    tk = fn_body(sup, "take_children") or ""
+    out.append("/-- `take_children`: the parent's `children` guard is never dropped explicitly (held to the end of the region) -/")
+    out.append(f"def takeHoldsParentSet : Bool := {str('children.lock()' in tk and 'drop(children)' not in tk).lower()}")
+    return out
+
+
 def main():
     ap = argparse.ArgumentParser()
     ap.add_argument("--repo", default="/repo")
@@ -334,6 +381,9 @@ def main():
     w(f"def threadLocalTwins : List (String × Bool) := [{', '.join(f'({lean_str(k)}, {str(v).lower()})' for k, v in twins.items())}]")
     w("")
     for line in registry_facts(repo):
+        w(line)
+    w("")
+    for line in tree_facts(repo):
         w(line)
     w("")
     w("end Extracted")
